@@ -355,9 +355,6 @@ Qed.
 
 End Core.
 (* ---------------------------------------------------------------- the exported rows (string ids) *)
-Lemma Rf_of_state (s : st) nodesR : s_nodes s = nodesR -> to_flow s = Rf nodesR.
-Proof. intros <-. reflexivity. Qed.
-
 Theorem means_rows nb ns n0 rest rows :
   ns = n0 :: rest -> (forall m, In m ns -> node_good m) -> order_ok U ueqb ns = true ->
   to_rows ueqb nb ns = Ok rows ->
@@ -394,8 +391,8 @@ Proof.
     - apply Forall_forall. intros t Ht. apply in_flat_map in Ht as (fe & Hfe & Ht). apply in_map_iff in Hfe as (e & <- & He).
       unfold fabs_edge in Ht. cbn [fe_from] in Ht. destruct (e_from e) as [|u0 s0|k0 s0] eqn:Ee; cbn [fabs_from from_ids] in Ht; [contradiction| |];
         destruct Ht as [<-|[]]; (destruct (Hallowed r (e_from e) Hr) as [H|H]; [unfold row_refs; apply in_or_app; left; apply in_map, He|rewrite Ee in H; discriminate|right; rewrite <- Ee; exact H]). }
-  destruct (fsem_rowsem nab FR nodesR) as (s & Hrun & Hs); [|exact Hsem'|].
-  { apply Forall_forall. intros fr Hfr. unfold FR in Hfr. rewrite map_map in Hfr. apply in_map_iff in Hfr as (r & <- & Hr).
+  assert (Hrun : rowsem nab (map to_rsrow FR) = Some (Rf nodesR)).
+  { apply (fsem_rowsem nab FR nodesR); [|exact Hsem']. apply Forall_forall. intros fr Hfr. unfold FR in Hfr. rewrite map_map in Hfr. apply in_map_iff in Hfr as (r & <- & Hr).
     unfold id_ok, frow_map, fabs_row. cbn [fr_id]. apply (Hids r Hr). }
   assert (Eabs : abs_rows U ustr strip rows = map to_rsrow FR).
   { unfold abs_rows, FR. rewrite Erows, !map_map. apply map_ext_in. intros r Hr. apply (abs_row_relabel U ustr strip f Hfs).
@@ -404,7 +401,7 @@ Proof.
     apply in_map_iff in H as (r' & Er' & Hr'). rewrite <- Er'. split; [apply (Hids r' Hr')|].
     intros Heq. rewrite <- Hfs in Heq. apply HP in Heq; [|right; apply in_map, Hr'|left; reflexivity].
     apply Hstart. rewrite <- Heq. apply in_map, Hr'. }
-  exists (to_flow s). split; [unfold rowsem; rewrite Eabs, Hrun; reflexivity|]. rewrite (Rf_of_state s nodesR Hs). split; assumption.
+  exists (Rf nodesR). split; [rewrite Eabs; exact Hrun|]. split; assumption.
 Qed.
 
 End Main.
